@@ -94,14 +94,16 @@ def ip_requests(fam, args):
     returns results list (ints or 'EXC:<type>')."""
     w = 32 if args["family"] == 4 else 128
 
-    def run():
-        an = _mk_ip(fam, args["cfg"], args["family"])
+    def serve(an):
         out = []
         for kind, x in args["requests"]:
             try:
                 out.append(an.anonymize(x) if kind == "a" else an.deanonymize(x))
             except Exception as e:  # observation
                 out.append("EXC:%s" % type(e).__name__)
+        return out
+
+    def run():
         fresh = []
         for kind, x in args["requests"]:
             f = _mk_ip(fam, args["cfg"], args["family"])
@@ -109,7 +111,62 @@ def ip_requests(fam, args):
                 fresh.append(f.anonymize(x) if kind == "a" else f.deanonymize(x))
             except Exception as e:
                 fresh.append("EXC:%s" % type(e).__name__)
-        return out, fresh
+        an = _mk_ip(fam, args["cfg"], args["family"])
+        pad_to = args.get("pad_to")
+        if not (pad_to and hasattr(an, "cache")):
+            return serve(an), fresh
+        # Realise "the memo already holds pad_to further entries that are irrelevant to these requests": serve unrelated
+        # pseudo-random requests first (in a part of the address space none of the requests is in), then try the exact
+        # sizes around the target, because a few top-level nodes are shared with the requests after all.
+        if pad_to > 3000000:
+            raise RuntimeError("memo size %d too large to realise in a replay" % pad_to)
+        import copy
+        import random as _r
+        rnd = _r.Random(1)
+        B = getattr(an, "preserve_suffix", 0) or 0
+        used = {x >> (w - 3) for _, x in args["requests"]}
+        free3 = [t for t in range(8) if t not in used] or list(range(8))
+
+        def pick():
+            return (rnd.choice(free3) << (w - 3)) | rnd.getrandbits(w - 3)
+
+        def adds(inst, x):
+            bits = inst.fmt.format(x)
+            n = sum(1 for k in range(1, w - B + 1) if bits[:k] not in inst.cache)
+            return n + (1 if B and bits not in inst.cache else 0)
+
+        def pad(inst, target, last):
+            while len(inst.cache) < target:
+                remaining = target - len(inst.cache)
+                if remaining > 2 * w or last is None:
+                    last = pick()
+                    if adds(inst, last) <= remaining:
+                        inst.anonymize(last)
+                    continue
+                best = None
+                for k in range(B, w - 3):
+                    cand = last ^ (1 << k)
+                    a_ = adds(inst, cand)
+                    if 0 < a_ <= remaining and (best is None or a_ > best[0]):
+                        best = (a_, cand)
+                if best is None:
+                    break
+                inst.anonymize(best[1])
+                last = best[1]
+            return last
+        base_len = len(an.cache)
+        last = pad(an, base_len + max(0, pad_to - 48), None)
+        first = None
+        for delta in range(0, 97):
+            inst = copy.copy(an)
+            inst.cache = an.cache.copy()
+            pad(inst, base_len + max(0, pad_to - 48) + delta, last)
+            out = serve(inst)
+            if first is None:
+                first = out
+            if out != fresh:
+                return out, fresh
+        return first, fresh
     (out, fresh), misses = _with_md5(fam, args, run)
     return dict(results=out, fresh=fresh, misses=misses, width=w)
 
@@ -769,3 +826,98 @@ def nosalt(fam, args):
     o2 = io.StringIO()
     fb.anonymize_io(io.StringIO("".join(args["lines"])), o2)
     return dict(violated=(o1.getvalue() != o2.getvalue()), observed=[o1.getvalue(), o2.getvalue()], detail="reported salt %r" % salts[0])
+
+
+@register("words_line")
+def words_line(fam, args):
+    """C10: no listed word may occur (any letter case) in the output, except inside a whitespace token that is a reserved word"""
+    words, line = args["words"], args["line"]
+
+    def run():
+        an = fam.sir.SensitiveWordAnonymizer(list(words), "S")
+        return an.anonymize(line)
+    try:
+        out, misses = _with_md5(fam, args, run)
+    except Exception as e:
+        return dict(violated=True, observed="EXC:%s" % type(e).__name__, detail=repr(e))
+    reserved = {w.lower() for w in fam.words.default_reserved_words}
+    low = out.lower()
+    bad = []
+    for w in words:
+        wl = w.lower()
+        i = low.find(wl)
+        while i >= 0:
+            # enclosing whitespace token
+            a = i
+            while a > 0 and not out[a - 1].isspace():
+                a -= 1
+            b = i + len(wl)
+            while b < len(out) and not out[b].isspace():
+                b += 1
+            if low[a:b] not in reserved:
+                bad.append((w, i))
+            i = low.find(wl, i + 1)
+    return dict(violated=bool(bad), observed=out, detail="surviving occurrences %r in %r" % (bad, out), misses=misses)
+
+
+@register("words_reserved")
+def words_reserved(fam, args):
+    tok = args["token"]
+    fa = fam.files.FileAnonymizer(anon_pwd=False, anon_ip=False, salt="S", sensitive_words=list(args["words"]), reserved_words=list(args.get("user_reserved") or []) or None)
+    out = fa.anonymizer_sensitive_word.anonymize("x %s y\n" % tok)
+    return dict(violated=tok not in out.split(), observed=out, detail="token %r in %r" % (tok, out))
+
+
+@register("words_reserved_secret")
+def words_reserved_secret(fam, args):
+    fa = fam.files.FileAnonymizer(anon_pwd=True, anon_ip=False, salt="S", reserved_words=[args["user_word"]])
+    o = io.StringIO()
+    line = "username admin password 0 %s\n" % args["word"]
+    fa.anonymize_io(io.StringIO(line), o)
+    return dict(violated=o.getvalue() != line, observed=o.getvalue(), detail="%r -> %r" % (line, o.getvalue()))
+
+
+@register("text_structure")
+def text_structure(fam, args):
+    """C12: line count/order, leading+trailing whitespace and terminator, locality, verbatim benign tokens"""
+    lines, kw, what = args["lines"], args["kw"], args["what"]
+    extra = args.get("extra") or {}
+
+    def run(ls):
+        _reseed_passlib()
+        fa = fam.files.FileAnonymizer(**kw)
+
+        class In:
+            def readlines(self):
+                return list(ls)
+        ws = []
+
+        class O:
+            def write(self, s):
+                ws.append(s)
+        fa.anonymize_io(In(), O())
+        return ws
+    try:
+        outs = run(lines)
+    except Exception as e:
+        return dict(violated=True, observed="EXC:%s" % type(e).__name__, detail=repr(e))
+    why = []
+    if len(outs) != len(lines):
+        why.append("%d lines in, %d writes" % (len(lines), len(outs)))
+    else:
+        for l, o in zip(lines, outs):
+            lead = l[:len(l) - len(l.lstrip())]
+            trail = l[len(l.rstrip()):]
+            if o[:len(o) - len(o.lstrip())] != lead or o[len(o.rstrip()):] != trail:
+                why.append("leading/trailing whitespace or terminator changed: %r -> %r" % (l, o))
+        if what == "locality" and len(lines) == 2:
+            alone = run(lines[1:])
+            if alone[0] != outs[1]:
+                why.append("line 2 gives %r after line 1 but %r alone" % (outs[1], alone[0]))
+        if what == "verbatim":
+            for l, o in zip(lines, outs):
+                if l.split() != o.split():
+                    why.append("tokens changed: %r -> %r" % (l, o))
+                elif o != l and not extra.get("collapse"):
+                    why.append("whitespace changed although no stage may collapse it: %r -> %r" % (l, o))
+    return dict(violated=bool(why), observed=outs, detail="; ".join(why))
